@@ -627,6 +627,19 @@ func do_YIELD_FROM(vm *Vm, arg int32) error {
 		if !py.IsException(py.StopIteration, err) {
 			return err
 		}
+		// The delegate is finished: the value carried by its
+		// StopIteration is the value of the yield from expression
+		var result py.Object = py.None
+		exc, _ := err.(*py.Exception)
+		if info, ok := err.(py.ExceptionInfo); ok {
+			exc, _ = info.Value.(*py.Exception)
+		}
+		if exc != nil {
+			if args, ok := exc.Args.(py.Tuple); ok && len(args) > 0 {
+				result = args[0]
+			}
+		}
+		vm.SET_TOP(result)
 		return nil
 	}
 	// x remains on stack, retval is value to be yielded
